@@ -562,7 +562,7 @@ def same_tokens(a, b):
 FMT_LITS = {}    # hex -> bytes of the literal pieces seen by rule R9 since the last reset
 
 
-def _fmt_pieces(lit_tok):
+def _fmt_pieces(lit_tok, pad=False):
     """split a plain string literal token used as a format string into [('lit', bytes) | ('arg', None) | ('named', ident)];
     None if it uses anything beyond `{}` / `{ident}` / `{{` / `}}` and simple escapes"""
     if not (lit_tok.startswith('"') and lit_tok.endswith('"')):
@@ -596,6 +596,9 @@ def _fmt_pieces(lit_tok):
                 out.append(("arg", None))
             elif re.match(r"[A-Za-z_][A-Za-z0-9_]*$", inner):
                 out.append(("named", inner))
+            elif pad and re.match(r"([A-Za-z_][A-Za-z0-9_]*)?:0(\d+)$", inner):
+                m_ = re.match(r"([A-Za-z_][A-Za-z0-9_]*)?:0(\d+)$", inner)
+                out.append(("padnamed" if m_.group(1) else "padarg", (m_.group(1), int(m_.group(2)))))
             else:
                 return None
             i = j + 1
@@ -666,6 +669,7 @@ def _fmt_expand(text, st, args, pieces, sink, lit_fn, arg_fn):
         return None
     return " ".join(out)
 
+FMT_LITSC = {}        # rule R12: literal pieces of format strings written to a char sink
 IO_UNWRAP = set()     # rule R11: callee names whose `.unwrap()` is an accepted panic on I/O failure (set per unit build)
 
 
@@ -800,6 +804,48 @@ def apply_rules(text, rules, ed, base=0, regex_map=None):
         elif "R5" in rules and is_id(t, "format") and i + 2 < n and is_p(st[i + 1], "!") and is_p(st[i + 2], "("):
             e = match_close(st, i + 2)
             ed.replace(base + t.start, base + st[e].end, "R5", "verif_fmt()")
+            i = e
+        elif "R12" in rules and is_id(t) and t.text in ("write", "writeln") and i + 2 < n and is_p(st[i + 1], "!") and is_p(st[i + 2], "(") \
+                and not (lambda e_: e_ + 2 < n and is_p(st[e_ + 1], ".") and is_id(st[e_ + 2], "unwrap"))(match_close(st, i + 2)):
+            # write!(SINK, LIT, args..) / writeln!(..) whose Result is used (`?`, tail): the pieces are written one after the
+            # other, stopping at the first error -- a chain of stand-in calls threading the Result (assumed meaning of
+            # std::fmt: literal pieces verbatim, `{}` = the argument's Display output, `{:0N}` = zero-padded decimal)
+            e = match_close(st, i + 2)
+            args = _split_args(st, i + 2, e)
+            pieces = _fmt_pieces(st[args[1][0]].text, pad=True) if (len(args) >= 2 and args[1][0] == args[1][1] and st[args[1][0]].kind == "str") else None
+            if pieces is None or not (args[0][0] == args[0][1] and st[args[0][0]].kind == "ident"):
+                raise LexError("write!/writeln! outside the supported form (IDENT, LIT with {} / {name} / {name:0N} placeholders, args..)")
+            sink = st[args[0][0]].text
+            if t.text == "writeln":
+                if pieces and pieces[-1][0] == "lit":
+                    pieces[-1] = ("lit", pieces[-1][1] + b"\n")
+                else:
+                    pieces.append(("lit", b"\n"))
+            rest = args[2:]
+            k = 0
+            steps = []
+            okp = True
+            for kind, v in pieces:
+                if kind == "lit":
+                    if any(b_ >= 128 for b_ in v):
+                        raise LexError("non-ASCII literal piece in a format string")
+                    FMT_LITSC[v.hex()] = v
+                    steps.append("let vr_ = vfw_lit(%s, vr_, Ghost(vlitc_%s()));" % (sink, v.hex()))
+                elif kind in ("arg", "padarg"):
+                    if k >= len(rest):
+                        okp = False
+                        break
+                    a, b = rest[k]
+                    k += 1
+                    ex = text[st[a].start:st[b].end]
+                    steps.append(("let vr_ = vfw_arg(%s, vr_, &(%s));" % (sink, ex)) if kind == "arg" else ("let vr_ = vfw_pad(%s, vr_, &(%s), %d);" % (sink, ex, v[1])))
+                elif kind == "named":
+                    steps.append("let vr_ = vfw_arg(%s, vr_, &(%s));" % (sink, v))
+                else:
+                    steps.append("let vr_ = vfw_pad(%s, vr_, &(%s), %d);" % (sink, v[0], v[1]))
+            if not okp or k != len(rest):
+                raise LexError("write! arguments do not match its placeholders")
+            ed.replace(base + t.start, base + st[e].end, "R12", "({ let vr_ = vfw_start(%s); %s vr_ })" % (sink, " ".join(steps)))
             i = e
         elif "R11" in rules and is_id(t, "unwrap") and i >= 2 and is_p(st[i - 1], ".") and is_p(st[i - 2], ")") \
                 and i + 2 < n and is_p(st[i + 1], "(") and is_p(st[i + 2], ")"):
